@@ -11,6 +11,13 @@ from .config import Configuration
 from .core import RTDCBase
 
 
+def readonly_view(data):
+    """Read-only view of array data that are handed out to the user"""
+    data = np.asarray(data).view()
+    data.setflags(write=False)
+    return data
+
+
 class DictContourEvent:
     def __init__(self, contours):
         assert contours[0].shape[1] == 2
@@ -77,9 +84,12 @@ class RTDC_Dict(RTDCBase):
                 if dfn.scalar_feature_exists(feat):
                     data = np.array(ddict[feat])
                 elif feat == "contour":
-                    data = DictContourEvent(ddict[feat])
+                    data = DictContourEvent(
+                        [readonly_view(cc) for cc in ddict[feat]])
                 elif feat == "trace":
-                    data = DictTraceEvent(ddict[feat])
+                    data = DictTraceEvent(
+                        {kk: readonly_view(ddict[feat][kk])
+                         for kk in ddict[feat]})
                 elif isinstance(ddict[feat], list):
                     # convert e.g. image data to arrays
                     data = np.array(ddict[feat])
